@@ -1,5 +1,3 @@
-import io
-import os
 from collections.abc import Generator, Iterator
 from itertools import chain
 from typing import IO
@@ -54,33 +52,55 @@ def delimited_jelly_hint(header: bytes) -> bool:
     )
 
 
-class _PrependedReader:
-    """Hand out ``head`` again before continuing to read from ``inp``."""
+class _SourceReader:
+    """
+    Read exactly what the frame parser asks for from any binary source.
 
-    def __init__(self, head: bytes, inp: IO[bytes]) -> None:
-        self._head = head
+    The parser needs ``read(n)`` to return ``n`` bytes unless the input ends. A raw
+    source (socket, pipe) may answer with fewer; other sources (urllib3 / requests
+    response bodies) do not return before ``n`` bytes have arrived. Asking a source
+    only for what the current frame needs - no buffering layer, no read-ahead - is
+    right for both: nothing is held back on a live stream and nothing already
+    received is lost when the connection breaks. The sniffed header is handed out
+    again through ``unread``, so no source has to seek.
+    """
+
+    def __init__(self, inp: IO[bytes]) -> None:
         self._inp = inp
+        self._head = b""
+
+    def unread(self, head: bytes) -> None:
+        self._head = head + self._head
 
     def read(self, size: int = -1) -> bytes:
-        if not self._head:
-            return self._read(size)
         if size < 0:
-            data = self._head + self._read(size)
-            self._head = b""
-            return data
+            data, self._head = self._head, b""
+            return data + self._read_all()
         data, self._head = self._head[:size], self._head[size:]
-        if len(data) < size:
-            data += self._read(size - len(data))
+        while len(data) < size:
+            chunk = self._read_some(size - len(data))
+            if not chunk:
+                break
+            data += chunk
         return data
 
-    def _read(self, size: int) -> bytes:
+    def _read_some(self, size: int) -> bytes:
         try:
-            return self._inp.read(size)
+            return self._inp.read(size) or b""
         except ValueError:
             # Some sources (urllib3's HTTPResponse, i.e. requests' ``raw``) report
-            # ``closed`` as soon as their last byte was handed out; BufferedReader then
-            # refuses the read that would merely have discovered the end of the stream.
-            if self._inp.closed:
+            # ``closed`` as soon as their last byte was handed out and refuse the read
+            # that would merely have discovered the end of the stream.
+            if getattr(self._inp, "closed", False):
+                return b""
+            raise
+
+    def _read_all(self) -> bytes:
+        try:
+            # not read(-1): http.client.HTTPResponse reads past the body for that
+            return self._inp.read() or b""
+        except ValueError:
+            if getattr(self._inp, "closed", False):
                 return b""
             raise
 
@@ -109,24 +129,14 @@ def get_options_and_frames(
             stream types, lookup presets and other stream options
 
     """
-    if not inp.seekable():
-        # Input may not be seekable (e.g. a network stream) -- then we need to buffer
-        # it to determine if it's delimited.
-        # See also: https://github.com/Jelly-RDF/pyjelly/issues/298
-        # Note: peek(3) issues at most one raw read, which a pipe, a socket or a chunked
-        # HTTP body may answer with fewer than 3 bytes; read(3) keeps reading until it has
-        # 3 bytes (or EOF) and never asks for more than that.
-        # An already buffered stream (socket.makefile("rb"), sys.stdin.buffer) is not wrapped
-        # again: the outer reader would fill its buffer through readinto(), which does not
-        # return before 8 KiB have arrived, so frames already delivered would be held back.
-        if not isinstance(inp, io.BufferedIOBase):
-            inp = io.BufferedReader(inp)  # type: ignore[arg-type, type-var, unused-ignore]
-        header = inp.read(3)
-        is_delimited = delimited_jelly_hint(header)
-        inp = _PrependedReader(header, inp)  # type: ignore[assignment]
-    else:
-        is_delimited = delimited_jelly_hint(bytes_read := inp.read(3))
-        inp.seek(-len(bytes_read), os.SEEK_CUR)
+    # Input may not be seekable (e.g. a network stream), or may only claim to be
+    # (gzip.GzipFile over a pipe): the header is read and handed out again instead of
+    # seeking back. See also: https://github.com/Jelly-RDF/pyjelly/issues/298
+    reader = _SourceReader(inp)
+    header = reader.read(3)
+    reader.unread(header)
+    is_delimited = delimited_jelly_hint(header)
+    inp = reader  # type: ignore[assignment]
 
     if is_delimited:
         first_frame = None
